@@ -18,7 +18,8 @@ def gen(rng: random.Random, tier: str):
     n = {"quick": 30, "thorough": 3000}[tier]
     for k in range(n):
         nu, ni = rng.randint(3, 12), rng.randint(3, 10)
-        rows = [[100 + u, 1000 + i, float(rng.choice([0.5, 1, 2, 3, 3.5, 4, 5]))] for u in range(nu) for i in range(ni) if rng.random() < 0.5]
+        base_u, base_i = rng.choice([(100, 1000), (0, 0), (0, 1000)])          # zero-based identifiers are identifiers like any other
+        rows = [[base_u + u, base_i + i, float(rng.choice([0.5, 1, 2, 3, 3.5, 4, 5]))] for u in range(nu) for i in range(ni) if rng.random() < 0.5]
         if len({r[0] for r in rows}) < 2 or len({r[1] for r in rows}) < 2: continue
         reg = rng.choice([0.01, 0.1, 1.0])
         kind = ["explicit", "implicit", "funksvd"][k % 3]
@@ -95,12 +96,56 @@ def _als(case, lean):
                     failed.append(f"{side} row {k} has no data but changed from {mat0[k].round(3).tolist()} to {mat_now[k].round(3).tolist()}")
                     keys.append("ALS rows without data are overwritten (with zeros) instead of keeping their previous values")
     # scores are dot products plus the applicable biases
-    u0 = int(ds.users.ids()[0]); items = ItemList(item_ids=list(ds.items.ids()))
-    sc = m(RecQuery(user_id=u0), items).scores()
-    for t in range(len(items)):
-        want = float(U[0] @ I[t]) + (float(bm.global_bias + bm.item_biases[t] + bm.user_biases[0]) if explicit else 0.0)
-        if not math.isnan(sc[t]) and abs(float(sc[t]) - want) > 1e-4 * max(1, abs(want)): failed.append(f"score(user 0, item {t}) = {sc[t]}, dot + biases = {want}")
+    items = ItemList(item_ids=list(ds.items.ids()))
+    for un, uid in enumerate(ds.users.ids()):
+        sc = m(RecQuery(user_id=uid), items).scores()
+        for t in range(len(items)):
+            want = float(U[un] @ I[t]) + (float(bm.global_bias + bm.item_biases[t] + bm.user_biases[un]) if explicit else 0.0)
+            if not math.isnan(sc[t]) and abs(float(sc[t]) - want) > 1e-4 * max(1, abs(want)): failed.append(f"score(user {uid}, item {t}) = {sc[t]}, dot + biases = {want}"); break
     classes = ["als-" + case["kind"]]
+    # fold-in: the embedding for a supplied history is the solution of that history's system; the same list is presented twice
+    # (a component must not alter the history it is given) and in every array form a caller may use
+    import torch
+    frnd = random.Random(case["seed"] + 7)
+    known = [int(x) for x in ds.items.ids() if Mk[:, ds.items.number(x)].any()]
+    hi = frnd.sample(known, min(len(known), frnd.randint(2, 4))); unk = frnd.random() < 0.3
+    hr = [float(frnd.choice([0.5, 1, 2, 3, 4.5, 5])) for _ in hi] + ([3.0] if unk else [])
+    hids = hi + ([424242] if unk else [])
+    form = case.get("hist_form") or ["list", "np32", "np64", "t32", "t64"][case["seed"] % 5]
+    rating_in = {"list": lambda: list(hr), "np32": lambda: np.array(hr, dtype="f4"), "np64": lambda: np.array(hr, dtype="f8"),
+                 "t32": lambda: torch.tensor(hr, dtype=torch.float32), "t64": lambda: torch.tensor(hr, dtype=torch.float64)}[form]()
+    hist = ItemList(item_ids=hids, rating=rating_in)
+    classes.append("fold-in history as " + form)
+    if unk: classes.append("fold-in history with an unknown item")
+    cap = []; orig_nue = m.new_user_embedding
+    def spy_nue(user_num, il): out = orig_nue(user_num, il); cap.append(out); return out
+    m.new_user_embedding = spy_nue
+    quser = frnd.choice([None, int(ds.users.ids()[0]), 777777])
+    for rep in range(2):
+        cap.clear()
+        fsc = m(RecQuery(user_id=quser, user_items=hist), items).scores()
+        now = [float(x) for x in np.asarray(hist.field("rating"))]
+        if now != hr or [int(x) for x in hist.ids()] != hids:
+            failed.append(f"presentation {rep + 1}: the supplied history was altered ({hr} -> {now})"); break
+        if not cap: failed.append("no embedding was folded in for the supplied history"); break
+        uf = cap[0][0].numpy().astype("f8"); ub = cap[0][1]
+        ref = ItemList(item_ids=hids, rating=np.array(hr, dtype="f8"))
+        kn = [k for k, i in enumerate(hids) if i != 424242]; rows_i = [ds.items.number(hids[k]) for k in kn]
+        if explicit:
+            hb, ub_ref = bm.compute_for_items(ref, None, ref)
+            out = mat().call("c10.explicit", dict(M=[[rat(v) for v in I[t]] for t in rows_i], r=[rat(hr[k] - float(hb[k])) for k in kn], c=rat(case["reg_user"] * len(kn)), x=[rat(v) for v in uf]))
+            scale = max(1.0, float(np.abs(I[rows_i]).max()) ** 2 * len(kn))
+        else:
+            w = case["weight"]; inh = set(rows_i)
+            out = mat().call("c10.implicit", dict(Y=[[rat(v) for v in row] for row in I], p=[rat(1.0 if t in inh else 0.0) for t in range(I.shape[0])],
+                                                  w=[rat(1.0 + w * (1.0 if t in inh else 0.0)) for t in range(I.shape[0])], c=rat(case["reg_user"]), x=[rat(v) for v in uf]))
+            scale = max(1.0, float(np.abs(I).max()) ** 2 * I.shape[0] * (1 + w)); ub_ref = None
+        r = max(abs(float(Fraction(v))) for v in out["resid"]) / scale; worst = max(worst, r)
+        if r > 1e-5: failed.append(f"presentation {rep + 1}: folded-in embedding misses its normal equations by {r:.2e} (history as {form})")
+        for t in range(len(items)):
+            want = float(uf @ I[t]) + (float(bm.global_bias + bm.item_biases[t] + (ub_ref or 0.0)) if explicit else 0.0)
+            if not math.isnan(fsc[t]) and abs(float(fsc[t]) - want) > 1e-4 * max(1, abs(want)): failed.append(f"presentation {rep + 1}: fold-in score of item {t} = {fsc[t]}, dot + biases = {want}"); break
+    m.new_user_embedding = orig_nue
     if case["reg_user"] != case["reg_item"]: classes.append("per-side regularisation")
     if case["extra_item"]: classes.append("item without data")
     if case.get("extra_user"): classes.append("user without data")
@@ -135,6 +180,16 @@ def _funk(case, lean):
             v = unbits(b); cells += 1; ident += bits(r) == int(b)
             rel = abs(r - v) / max(1.0, abs(r)); worst = max(worst, rel)
             if not rel <= 1e-9: failed.append(f"embedding cell {r} vs documented update rule {v}")
+    # scores: embedding dot product plus the bias terms (the range clamps the training estimates only) — for every trained user (identifiers here start at 0: a user id is never a truth value)
+    from lenskit.data import ItemList
+    from lenskit.data.query import RecQuery
+    Uf, If = np.asarray(m.user_features_, dtype="f8"), np.asarray(m.item_features_, dtype="f8"); bmf = m.bias_
+    cand = ItemList(item_ids=[int(x) for x in ds.items.ids()])
+    for u in ds.users.ids():
+        un = ds.users.number(u); scf = m(RecQuery(user_id=u), cand).scores()
+        for t in range(len(cand)):
+            want = float(Uf[un] @ If[t]) + float(bmf.global_bias + bmf.item_biases[t] + bmf.user_biases[un])
+            if math.isnan(scf[t]) or abs(float(scf[t]) - want) > 1e-4 * max(1, abs(want)): failed.append(f"score(user {u}, item {t}) = {scf[t]}, dot + biases = {want}"); break
     classes = ["funksvd"] + (["clamped range"] if case["range"] else [])
     return not failed, failed, classes, {"cells": cells, "bit_identical": ident, "max_rel": worst}
 
@@ -155,5 +210,5 @@ SPEC = CheckSpec(
               "LK.NormalEqW.C10_NormalEqW_normalEq_isMin", "LK.NormalEqW.C10_NormalEqW_normalEq_unique_min", "LK.NormalEqW.C10_NormalEqW_resid_zero_iff",
               "LK.NormalEqW.C10_NormalEqW_implicit_split", "LK.Funk.C10_FunkSVD_trainFeature_frozen"],
     correspondence_ops=["c10.explicit", "c10.implicit", "c10.funksvd"],
-    nontrivial_rule="distinct trainings reaching ≥1 of: explicit / implicit ALS, per-side regularisation, item without data, FunkSVD (clamped range)",
+    nontrivial_rule="distinct trainings reaching ≥1 of: explicit / implicit ALS, per-side regularisation, item without data, fold-in histories in five array forms (with an unknown item), FunkSVD (clamped range), zero-based identifiers",
     budgets={"quick": 30, "thorough": 3000}, gen=gen, run=run, shrink=shrink)
